@@ -132,3 +132,59 @@ def unitary_from_tensor(B, t):
     a = B.scalars(t)
     O = B.O
     return [[O.cplx(a[0, r, c], a[1, r, c]) for c in range(2)] for r in range(2)]
+
+
+# ---- reference models (PurificationRBM / density matrix) -------------------------------------------
+def prbm_joint_exponent(O, P, v, h, a):
+    """-E(v,h,a) = b.v + c.h + d.a + h W v + a U v of the three-layer purification RBM"""
+    W, U, b, c, d = P["weights_W"], P["weights_U"], P["visible_bias"], P["hidden_bias"], P["aux_bias"]
+    t = O.frac(0)
+    for j, vj in enumerate(v):
+        if vj:
+            t = t + b[j]
+    for i, hi in enumerate(h):
+        if hi:
+            t = t + c[i]
+            for j, vj in enumerate(v):
+                if vj:
+                    t = t + W[i, j]
+    for k, ak in enumerate(a):
+        if ak:
+            t = t + d[k]
+            for j, vj in enumerate(v):
+                if vj:
+                    t = t + U[k, j]
+    return t
+
+
+def prbm_neg_energy_va(O, P, v, a):
+    """-E(v,a) with the hidden layer traced out: b.v + sum_i softplus(c_i + W_i v) + d.a + a U v"""
+    W, U, b, c, d = P["weights_W"], P["weights_U"], P["visible_bias"], P["hidden_bias"], P["aux_bias"]
+    t = O.frac(0)
+    for j, vj in enumerate(v):
+        if vj:
+            t = t + b[j]
+    for i in range(len(c)):
+        t = t + O.log(1 + O.exp(lin(O, W[i], v, c[i])))
+    for k, ak in enumerate(a):
+        if ak:
+            t = t + lin(O, U[k], v, d[k])
+    return t
+
+
+def rho_ref(O, Pam, Pph, v, vp):
+    """<v| rho |vp> = sum_a Psi(v,a) conj(Psi(vp,a)): the partial trace over the auxiliary units of the
+    purified two-network RBM state  Psi(v,a) = exp(-E_am(v,a)/2) exp(-i E_ph(v,a)/2)"""
+    na = len(Pam["aux_bias"])
+    tot = O.cplx(O.frac(0))
+    for a in itertools.product((0, 1), repeat=na):
+        tot = tot + purification_amp(O, Pam, Pph, v, a) * O.conj(purification_amp(O, Pam, Pph, vp, a))
+    return O.re(tot), O.im(tot)
+
+
+def purification_amp(O, Pam, Pph, v, a):
+    """Psi(v,a) as a backend complex scalar"""
+    half = O.frac(1, 2)
+    amp = O.exp(half * prbm_neg_energy_va(O, Pam, v, a))
+    ang = half * prbm_neg_energy_va(O, Pph, v, a)
+    return O.cplx(amp * O.cos(ang), amp * O.sin(ang))
